@@ -9,7 +9,7 @@ import copy
 
 import vf.env  # noqa: F401
 from vf.env import REAL, td, day, set_now, Clock
-from vf import core, sched, calast
+from vf import core, sched, calast, steps
 from vf.sched import BudgetExceeded, rname
 
 EPS = 1e-9
@@ -60,14 +60,19 @@ META = {
                      'balancing on: days after the end day and before the due date fully booked, no gap inside the task, '
                      'end-of-day encoding of start and computed end. non-trivial = leaf with a successor or a partially booked '
                      'day; distinct = signature', assumptions=_ASSUME + ['partial due day not demanded; encoding with balancing on only']),
-    'C14': dict(level='exploration', required=['calcs', 'unschedulable_cases', 'cycle_through_hierarchy_cases', 'runtime_errors_seen'],
+    'C14': dict(level='exploration', required=['calcs', 'unschedulable_cases', 'cycle_through_hierarchy_cases', 'runtime_errors_seen', 'step_budget_cases'],
                 rule='both schedulers on unfiltered W-SCHED inputs plus the unschedulable classes; outcome must be a schedule or '
                      'RuntimeError (RecursionError = crash), RuntimeError for the four stated unschedulable classes, and at most '
                      'B = leaves*(3*100001+64)+10*tasks^2 capacity queries per calc (bounded progress; budget exception at the '
-                     'capacity hook). non-trivial = unschedulable case or case that raised; distinct = (class, outcome, dir)',
+                     'capacity hook); on chains of 9-13 phases with default resources at most 300*tasks^2+5000 calls of functions '
+                     'of pjplan/schedule.py per calc (sys.monitoring PY_START on that file\'s code objects; budget exception in the '
+                     'callback). non-trivial = unschedulable case or case that raised; distinct = (class, outcome, dir)',
                 assumptions=['structural invariants of C01 hold for every input (built through the public API)',
                              'wall watchdog per shard is separate and yields inconclusive']),
 }
+for _k, _m in META.items():
+    _m['rule'] += ('; plus an exhaustive small-scope layer: every forest on <=4 tasks x every set of <=4 links (quick) / <=5 tasks x <=3 '
+                   'links (thorough) x fixed calendars, both balance settings, 2 clock positions (counter exhaustive_small_scope_cases)')
 
 
 # ------------------------------------------------------------------------------------------
@@ -170,6 +175,8 @@ def sig_of(res):
 def classify_outcome(e):
     if isinstance(e, BudgetExceeded):
         return 'budget'
+    if isinstance(e, steps.StepBudgetExceeded):
+        return 'steps'
     if isinstance(e, RecursionError):
         return 'RecursionError'
     if isinstance(e, RuntimeError):
@@ -177,15 +184,29 @@ def classify_outcome(e):
     return type(e).__name__
 
 
+def step_limit(case):
+    """calls of functions of pjplan/schedule.py one calc may make on a plan whose resources are all default ones (8 units on
+    working days, so no long searches): the unchanged code needs about 1.6*n^2 on the deepest chains generated; the bound
+    leaves room for any polynomial pre-flight (n^3 < 300*n^2 for the sizes generated) and only cuts off path enumeration"""
+    n = len(case['tasks'])
+    return 300 * n * n + 5000
+
+
 def run_calc(case, b, schd=None):
     set_now(case['now'])
     schd = schd or sched.scheduler(case, b)
+    armed = bool(case.get('step_budget')) and steps.install()
     try:
+        if armed:
+            steps.arm(step_limit(case))
         return schd, schd.calc(b.wbs), 'ok', None
     except BaseException as e:  # BudgetExceeded is a BaseException
         if isinstance(e, (KeyboardInterrupt, SystemExit)):
             raise
         return schd, None, classify_outcome(e), e
+    finally:
+        if armed:
+            case['_steps'] = steps.disarm()
 
 
 def conf_class(case):
@@ -278,8 +299,17 @@ def judge(prop, case, acc):
             acc.count('runtime_errors_seen')
         if unsched or outcome != 'ok':
             acc.sig(tuple(unsched), outcome, case['dir'], case['balance'])
+        if case.get('step_budget'):
+            if '_steps' in case:
+                acc.count('step_budget_cases')
+                acc.count('steps_counted', case['_steps'])
+            else:
+                acc.count('step_monitor_unavailable')
         if outcome == 'budget':
             viol('C14', f"unbounded-progress/{case['dir']}", f"more than {b.shared['budget']} capacity queries in one calc")
+        elif outcome == 'steps':
+            viol('C14', f"unbounded-progress/steps-without-capacity-query/{case['dir']}",
+                 f"more than {step_limit(case)} calls inside pjplan/schedule.py for a plan of {len(case['tasks'])} tasks on default resources (chain of phases): the work grows exponentially with the number of phases")
         elif outcome not in ('ok', 'RuntimeError'):
             viol('C14', f"{outcome}/{case['dir']}" + _c14_mech(case, exc), f"calc raised {outcome}: {str(exc)[:120]}")
         elif outcome == 'ok' and unsched:
@@ -645,7 +675,9 @@ def judge(prop, case, acc):
                         viol('C04', 'start-not-on-first-reserved-day/fwd', f'task {rt.id} start {rt.start}, first reserved day {first}')
                     if not (last < rt.end <= last + td(days=1) + MS):
                         viol('C04', 'end-not-within-24h-after-last-reserved-day/fwd', f'task {rt.id} end {rt.end}, last reserved day {last}')
-                else:
+                elif t['start'] is None:
+                    # (a start the user typed before a backward run is kept when it is the earlier one; the clause speaks
+                    # about the start the run assigns)
                     if not (first - MS <= rt.start < first + td(days=1)):
                         viol('C04', f"start-not-within-first-reserved-day/bwd/{'balance' if bal else 'per-task'}", f'task {rt.id} start {rt.start}, first reserved day {first}')
             if prop == 'C04' and work > 0:
@@ -982,8 +1014,41 @@ def _report(prop, V, case, acc):
 # ------------------------------------------------------------------------------------------
 # C14 extra classes
 # ------------------------------------------------------------------------------------------
+def gen_phase_chain(rnd):
+    """a plan as people draw it: phases (summary tasks) one after the other, each waiting for the previous one -- through a
+    link between the phases, through links from its tasks, or through a link to the previous phase's last task"""
+    direction = rnd.choice(['fwd', 'bwd'])
+    k, m = rnd.choice([(9, 3), (10, 3), (11, 3), (12, 3), (11, 2), (12, 2), (13, 2)])
+    base = REAL(2026, 1, 5) if direction == 'fwd' else REAL(2027, 6, 4)
+    tasks, links = [], []
+    prev = None
+    for p_ in range(k):
+        ph = len(tasks)
+        tasks.append({'id': ph + 1, 'name': f'phase{p_}', 'parent': None, 'estimate': None, 'spent': None, 'resource': None, 'milestone': False,
+                      'min_start': None, 'start': None, 'end': None, 'attrs': {}})
+        kids = []
+        for _ in range(m):
+            kids.append(len(tasks))
+            tasks.append(dict(tasks[ph], id=len(tasks) + 1, name=f'work{len(tasks)}', parent=ph, estimate=rnd.choice([1, 2, 4, 8]),
+                              resource=rnd.choice([None, 'A'])))
+        if prev is not None:
+            how = rnd.choice(['phase', 'phase', 'phase', 'tasks', 'last-task'])
+            if how == 'phase':
+                links.append([ph, prev[0]])
+            elif how == 'tasks':
+                links += [[c_, prev[0]] for c_ in kids]
+            else:
+                links.append([ph, prev[1][-1]])
+        prev = (ph, kids)
+    return {'kind': 'sched', 'tasks': tasks, 'links': links, 'externals': [], 'resources': {'<none>': 'missing', 'A': 'missing'}, 'dir': direction,
+            'date': base, 'now': REAL(2020, 1, 1), 'balance': rnd.random() < 0.7, 'default_estimate': 0, 'class': 'wellformed',
+            'decimal': False, 'step_budget': True}
+
+
 def gen_c14_case(rnd):
     k = rnd.random()
+    if k > 0.985:
+        return gen_phase_chain(rnd)
     direction = rnd.choice(['fwd', 'bwd'])
     if k < 0.35:
         case = sched.gen_case(rnd, direction, klass='any')
@@ -1009,6 +1074,14 @@ def gen_c14_case(rnd):
                 ast = mon_cal.gen_ast(rnd, rnd.choice([1, 2, 3]))
                 if ast[0] != 'num':
                     case['resources'][nm] = ast
+        if rnd.random() < 0.25 and case['tasks']:
+            # a resource whose answer depends on the task it is asked for (second argument of the extension point): a share
+            # of the day for some tasks, extra units -- also on days the calendar leaves empty -- for others
+            picks = rnd.sample(case['tasks'], rnd.randint(1, min(3, len(case['tasks']))))
+            case['task_caps'] = {str(t['id']): rnd.choice([0.5, 0.25, [1, 2], [0, 4], [0.5, 1], 0]) for t in picks}
+            if rnd.random() < 0.5:
+                for t in case['tasks']:
+                    t['resource'] = case['tasks'][0]['resource']
         return case
     if k < 0.6:
         # cycle that closes through the hierarchy
@@ -1082,9 +1155,9 @@ def gen_c14_case(rnd):
 # ------------------------------------------------------------------------------------------
 FWD_ONLY = ('C02', 'C08')
 BWD_ONLY = ('C09',)
-# properties that speak about every backward schedule, dates typed on leaves included (C04's and C09's backward clauses
-# are about the dates the run assigns, so their workloads keep backward inputs free of user dates)
-BWD_FIXED = ('C07', 'C03', 'C06')
+# properties that speak about every backward schedule, dates typed on leaves included (C09 quantifies over WBSs without
+# user-fixed dates, so its workload keeps backward inputs free of them)
+BWD_FIXED = ('C07', 'C03', 'C06', 'C04')
 TASK_CAPPED = ('C07', 'C06', 'C04', 'C02')
 
 
@@ -1093,6 +1166,7 @@ def run_shard(prop, tier, seed, shard, nshards, budget, acc):
     n_max = 14 if tier == 'thorough' else 12
     if prop in ('C02', 'C08', 'C06', 'C07', 'C03', 'C04'):
         _known_answer_anchor(acc)
+    _exhaustive_layer(prop, tier, shard, nshards, acc)
     while budget.more():
         rnd = core.case_rng(seed, shard, idx, 'sched')
         idx += 1
@@ -1137,6 +1211,32 @@ def run_shard(prop, tier, seed, shard, nshards, budget, acc):
                     acc.inconclusive.append('oracle raised on a case: ' + traceback.format_exc()[-700:])
         if idx <= 2:
             acc.sample(_brief(case))
+
+
+def _exhaustive_layer(prop, tier, shard, nshards, acc):
+    """small-scope layer (vf/exh_sched.py): every forest x every link set up to the scope, walked by this shard's share"""
+    from vf import exh_sched
+    dirs = ['fwd'] if prop in FWD_ONLY else ['bwd'] if prop in BWD_ONLY else ['fwd', 'bwd']
+    n_max, max_links = (5, 3) if tier == 'thorough' else (4, 4)
+    for direction in dirs:
+        for i, (n, parents, links) in enumerate(exh_sched.cases(direction, n_max, max_links)):
+            if i % nshards != shard:
+                continue
+            nows = ['early', 'same' if i % 2 else 'late'] if direction == 'fwd' else ['early']
+            for bal in (True, False):
+                for nk in nows:
+                    case = exh_sched.make(direction, n, parents, links, i // nshards, bal, nk)
+                    if case['class'] != 'wellformed' and prop != 'C14':
+                        continue
+                    acc.cases += 1
+                    acc.count('exhaustive_small_scope_cases')
+                    try:
+                        judge(prop, case, acc)
+                    except Exception:
+                        import traceback
+                        acc.count('oracle_exceptions')
+                        if acc.counters['oracle_exceptions'] <= 2:
+                            acc.inconclusive.append('oracle raised on a case: ' + traceback.format_exc()[-700:])
 
 
 def _brief(case):
